@@ -716,6 +716,9 @@ def call_ext(interp, ext, node, args, kwargs, st):
             and args[0].kind in ("list", "tuple") and args[0].items is not None and 0 < len(args[0].items) <= 6 and len(args) == 1 \
             and all(i_ is not None and i_.kind in ("float", "int") and i_.sym is not None for i_ in args[0].items) and set(kwargs) <= {"dtype"}:
         out.items = tuple(args[0].items)            # an array built from a display of scalars: component by component (as np.square([..]))
+    if isinstance(out, Val) and cext == "numpy.cross" and len(args) >= 2 and out.kind in ("arr", "unknown") \
+            and "world3" in args[0].tags and "world3" in args[1].tags and FRAME_DEP not in out.deps:
+        out.tags = out.tags | {"world3"}            # the cross product of two world-frame vectors is a world-frame vector
     if isinstance(out, Val) and cext == "numpy.arange" and len(args) == 1 and not kwargs:
         out.tags = out.tags | {("ringidx", 0)}              # i = 0 .. n-1: the identity index of a cycle of n rows
     if isinstance(out, Val) and cext in ("numpy.mod", "numpy.remainder") and args:
